@@ -14,6 +14,7 @@ import (
 	"strings"
 
 	"golang.org/x/tools/go/ssa"
+	"unicode"
 )
 
 // ---------- abstract values ----------
@@ -844,6 +845,23 @@ func (ev *Evaluator) instr(env map[ssa.Value]Val, in ssa.Value) (Val, error) {
 		if err != nil {
 			return nil, err
 		}
+		// a constant key looked up in a package-level map literal that nothing writes after initialisation
+		if g, ok := x.(Sym); ok && strings.HasPrefix(g.Name, "*") && ev.GlobalInit != nil {
+			if kc, ok := k.(Const); ok && kc.V != nil {
+				if mv, ok := ev.GlobalInit(g.Name[1:] + "#map"); ok {
+					if m, ok := mv.(*MapV); ok {
+						v, found := m.Entries[kc.V.ExactString()]
+						if !found {
+							v = zeroOf(m.ElemT)
+						}
+						if in.CommaOk {
+							return Tuple{v, Const{constant.MakeBool(found)}}, nil
+						}
+						return v, nil
+					}
+				}
+			}
+		}
 		if in.CommaOk {
 			return Tuple{Term{Fn: "lookup#0", Args: []Val{x, k}}, Term{Fn: "lookup#1", Args: []Val{x, k}}}, nil
 		}
@@ -851,6 +869,15 @@ func (ev *Evaluator) instr(env map[ssa.Value]Val, in ssa.Value) (Val, error) {
 	}
 	return nil, &Undecided{in.Pos(), fmt.Sprintf("unsupported value %T", in)}
 }
+
+// MapV is the content of a package-level map literal with constant keys (keyed by the key's exact string).
+type MapV struct {
+	Name    string
+	Entries map[string]Val
+	ElemT   types.Type
+}
+
+func (m *MapV) String() string { return "*" + m.Name }
 
 type ArrayV struct {
 	Elems map[int64]*Cell
@@ -1240,6 +1267,9 @@ func (ev *Evaluator) apply(fn *ssa.Function, args []Val, pos token.Pos) (Val, er
 		if v, ok := byteOrder(key, args); ok {
 			return v, nil
 		}
+		if v, ok := foldPure(key, args); ok {
+			return v, nil
+		}
 		t := Term{Fn: key, Args: args}
 		ev.Trace = append(ev.Trace, t.String())
 		return t, nil
@@ -1349,4 +1379,80 @@ func rebaseSlice(x, idx Val) (Val, Val) {
 func isStringType(t types.Type) bool {
 	b, ok := t.Underlying().(*types.Basic)
 	return ok && b.Info()&types.IsString != 0
+}
+
+// foldPure evaluates a few pure functions of package strings / unicode on constant operands (a byte looked up in a
+// literal set, a literal put in upper case): their result is a constant of the program, not an input.
+func foldPure(name string, args []Val) (Val, bool) {
+	str := func(i int) (string, bool) {
+		if i >= len(args) {
+			return "", false
+		}
+		c, ok := args[i].(Const)
+		if !ok || c.V == nil || c.V.Kind() != constant.String {
+			return "", false
+		}
+		return constant.StringVal(c.V), true
+	}
+	num := func(i int) (int64, bool) {
+		if i >= len(args) {
+			return 0, false
+		}
+		c, ok := args[i].(Const)
+		if !ok || c.V == nil || c.V.Kind() != constant.Int {
+			return 0, false
+		}
+		return constant.Int64Val(c.V)
+	}
+	mkInt := func(k int) (Val, bool) { return Const{constant.MakeInt64(int64(k))}, true }
+	mkBool := func(b bool) (Val, bool) { return Const{constant.MakeBool(b)}, true }
+	switch name {
+	case "strings.IndexByte":
+		s, ok1 := str(0)
+		c, ok2 := num(1)
+		if ok1 && ok2 && c >= 0 && c < 256 {
+			return mkInt(strings.IndexByte(s, byte(c)))
+		}
+	case "strings.IndexRune", "strings.ContainsRune":
+		s, ok1 := str(0)
+		c, ok2 := num(1)
+		if ok1 && ok2 {
+			if name == "strings.IndexRune" {
+				return mkInt(strings.IndexRune(s, rune(c)))
+			}
+			return mkBool(strings.ContainsRune(s, rune(c)))
+		}
+	case "strings.Contains", "strings.HasPrefix", "strings.HasSuffix", "strings.EqualFold", "strings.Index":
+		a, ok1 := str(0)
+		b, ok2 := str(1)
+		if ok1 && ok2 {
+			switch name {
+			case "strings.Contains":
+				return mkBool(strings.Contains(a, b))
+			case "strings.HasPrefix":
+				return mkBool(strings.HasPrefix(a, b))
+			case "strings.HasSuffix":
+				return mkBool(strings.HasSuffix(a, b))
+			case "strings.EqualFold":
+				return mkBool(strings.EqualFold(a, b))
+			default:
+				return mkInt(strings.Index(a, b))
+			}
+		}
+	case "strings.ToUpper", "strings.ToLower":
+		if s, ok := str(0); ok {
+			if name == "strings.ToUpper" {
+				return Const{constant.MakeString(strings.ToUpper(s))}, true
+			}
+			return Const{constant.MakeString(strings.ToLower(s))}, true
+		}
+	case "unicode.ToUpper", "unicode.ToLower":
+		if c, ok := num(0); ok {
+			if name == "unicode.ToUpper" {
+				return mkInt(int(unicode.ToUpper(rune(c))))
+			}
+			return mkInt(int(unicode.ToLower(rune(c))))
+		}
+	}
+	return nil, false
 }
